@@ -12,6 +12,8 @@ from concurrent.futures import ThreadPoolExecutor
 VERIF = os.path.dirname(os.path.dirname(os.path.abspath(__file__)))
 sys.path.insert(0, VERIF)
 PIDS = [f"C{i:02d}" for i in range(1, 21)]
+if os.environ.get("VB_PIDS"):  # restrict the evaluation to some checks (faster while working on one rule module): VB_PIDS=C03,C14
+    PIDS = [p for p in PIDS if p in os.environ["VB_PIDS"].split(",")]
 
 
 def sh(cmd, cwd=None, env=None, timeout=900):
